@@ -17,10 +17,22 @@ def u16(n): return n.to_bytes(2, "big")
 def u24(n): return n.to_bytes(3, "big")
 def hs(t, body): return bytes([t]) + u24(len(body)) + body
 
+# A key-holding peer can put ANY bytes into a handshake message, also behind the record protection.  MUT = (handshake type, edit program):
+# the message of that type is built honestly, edited (vector tree when it is a hello / certificate / extensions message, bytes otherwise) and sent.
+def maybe_mutate(MUT, t, m):
+    if MUT is None or MUT[0] != t:
+        return m
+    rec = b"\x16\x03\x03" + u16(len(m)) + m
+    out = mutlib.apply_tls(rec, MUT[1]) if len(m) < 16000 else None
+    if out is not None and len(out) > 5:
+        return out[5:]
+    out = mutlib.apply_bytes(m, MUT[1])
+    return out if out else m
+
 
 class Peer:
-    def __init__(self, sock, version):
-        self.s, self.ver = sock, version
+    def __init__(self, sock, version, mut=None):
+        self.s, self.ver, self.mut = sock, version, mut
         self.transcript = b""
         self.wseq = self.rseq = 0
         self.keys = None
@@ -37,7 +49,7 @@ class Peer:
         self.s.sendall(hdr3 + u16(len(body)) + body)
 
     def send_hs(self, t, body):
-        m = hs(t, body)
+        m = maybe_mutate(self.mut, t, hs(t, body))[:16384]
         self.transcript += m
         self.send_record(22, m)
 
@@ -80,12 +92,12 @@ def split_certs(der):
     return out
 
 
-def tlcp_client(sock, deviation, client_chain=b"", client_d=0, other_d=12345, proto=257):
+def tlcp_client(sock, deviation, client_chain=b"", client_d=0, other_d=12345, proto=257, mut=None):
     """TLCP (ECC_SM4_CBC_SM3: the pre-master secret travels under the server's encryption certificate) or TLS 1.2 (ECDHE_SM4_CBC_SM3) client.
     returns dict(completed=bool, server_finished_ok=bool, alert=...)"""
     tlcp = proto == 257
     ver = b"\x01\x01" if tlcp else b"\x03\x03"
-    p = Peer(sock, ver)
+    p = Peer(sock, ver, mut)
     crandom = bytes((i * 7 + 3) & 255 for i in range(32))
     p.send_hs(1, ver + crandom + b"\x00" + u16(2) + (b"\xe0\x13" if tlcp else b"\xe0\x11") + b"\x01\x00")
     ske = None
@@ -189,8 +201,8 @@ def derive(secret, label, transcript): return xlabel(secret, label, sm3(transcri
 
 
 class Peer13:
-    def __init__(self, sock):
-        self.s = sock; self.transcript = b""; self.wk = self.rk = None; self.wseq = self.rseq = 0
+    def __init__(self, sock, mut=None):
+        self.s = sock; self.mut = mut; self.transcript = b""; self.wk = self.rk = None; self.wseq = self.rseq = 0
     def set_write(self, secret): self.wk = (xlabel(secret, b"key", b"", 16), xlabel(secret, b"iv", b"", 12)); self.wseq = 0
     def set_read(self, secret): self.rk = (xlabel(secret, b"key", b"", 16), xlabel(secret, b"iv", b"", 12)); self.rseq = 0
     def send_plain(self, rtype, payload): self.s.sendall(bytes([rtype]) + b"\x03\x03" + u16(len(payload)) + payload)
@@ -198,7 +210,7 @@ class Peer13:
         body = K.tls13_body(T, self.wk[0], self.wk[1], self.wseq.to_bytes(8, "big"), rtype, payload, 0); self.wseq += 1
         self.s.sendall(b"\x17\x03\x03" + u16(len(body)) + body)
     def send_hs(self, t, body, enc=True):
-        m = hs(t, body); self.transcript += m
+        m = maybe_mutate(self.mut, t, hs(t, body))[:16384]; self.transcript += m
         (self.send_enc if enc else self.send_plain)(22, m)
     def recv_exact(self, n):
         b = b""
@@ -218,8 +230,8 @@ class Peer13:
         return h[0], body
 
 
-def tls13_client(sock, deviation, client_chain=b"", client_d=0, other_d=12345):
-    p = Peer13(sock)
+def tls13_client(sock, deviation, client_chain=b"", client_d=0, other_d=12345, mut=None):
+    p = Peer13(sock, mut)
     crandom = bytes((i * 11 + 5) & 255 for i in range(32))
     ce = 0x5151515151515151515151515151515151515151515151515151515151515151 % sm2ref.n
     cP = sm2ref.mul(ce, sm2ref.G)
@@ -287,11 +299,11 @@ def tls13_client(sock, deviation, client_chain=b"", client_d=0, other_d=12345):
 
 # ---------------------------------------------------------------------------------------------------------------------
 # The other role: a server that is not the library, for the library CLIENT's authentication of its peer (server-auth handshakes).
-def cbc_server(sock, proto, deviation, chain_der, sign_d, enc_d=0, other_d=54321):
+def cbc_server(sock, proto, deviation, chain_der, sign_d, enc_d=0, other_d=54321, mut=None):
     """TLCP (proto 257) or TLS 1.2 (771) server.  Deviations: ske_wrong_key, ske_stale_random, no_ske, finished_wrong, finished_plain, no_ccs"""
     tlcp = proto == 257
     ver = b"\x01\x01" if tlcp else b"\x03\x03"
-    p = Peer(sock, ver)
+    p = Peer(sock, ver, mut)
     r = p.recv_record()
     if r is None or r[0] != 22: return {"completed": False, "why": "no ClientHello"}
     ch = r[1]; p.transcript += ch
@@ -359,9 +371,9 @@ def cbc_server(sock, proto, deviation, chain_der, sign_d, enc_d=0, other_d=54321
     return {"completed": True}
 
 
-def tls13_server(sock, deviation, chain_der, sign_d, other_d=54321):
+def tls13_server(sock, deviation, chain_der, sign_d, other_d=54321, mut=None):
     """TLS 1.3 server.  Deviations: no_cv (Certificate, then Finished), no_cert (neither), cv_wrong_key, cv_stale_transcript, cv_client_context, finished_wrong"""
-    p = Peer13(sock)
+    p = Peer13(sock, mut)
     r = p.recv_record()
     if r is None or r[0] != 22: return {"completed": False, "why": "no ClientHello"}
     ch = r[1]; p.transcript += ch
@@ -413,7 +425,7 @@ def tls13_server(sock, deviation, chain_der, sign_d, other_d=54321):
     return {"completed": ok}
 
 
-def run_server(creddir, exe, proto, scred, ctrust, deviation, timeout=60):
+def run_server(creddir, exe, proto, scred, ctrust, deviation, timeout=60, mut=None):
     """spawn the library CLIENT on one end of a socketpair, play the independent server with credential set `scred` on the other"""
     a, b = socket.socketpair()
     import tempfile
@@ -424,9 +436,12 @@ def run_server(creddir, exe, proto, scred, ctrust, deviation, timeout=60):
     chain = open(os.path.join(creddir, scred, "chain.der"), "rb").read()
     rd = lambda f: int(open(os.path.join(creddir, scred, f)).read().strip(), 16) if os.path.exists(os.path.join(creddir, scred, f)) else 0
     try:
-        view = tls13_server(a, deviation, chain, rd("sign.key")) if proto == 772 else cbc_server(a, proto, deviation, chain, rd("sign.key"), rd("enc.key"))
+        view = tls13_server(a, deviation, chain, rd("sign.key"), mut=mut) if proto == 772 else cbc_server(a, proto, deviation, chain, rd("sign.key"), rd("enc.key"), mut=mut)
     except (socket.timeout, ConnectionError, OSError) as ex:
         view = {"completed": False, "why": "socket: %r" % ex}
+    except Exception as ex:
+        if mut is None: raise
+        view = {"completed": False, "why": "peer logic: %r" % ex}
     try: a.close()
     except OSError: pass
     try: _, err = pr.communicate(timeout=timeout)
@@ -440,7 +455,7 @@ def run_server(creddir, exe, proto, scred, ctrust, deviation, timeout=60):
     return view, evs, san
 
 
-def run(creddir, exe, proto, scred, strust, deviation, ccred="cli_d2", timeout=60):
+def run(creddir, exe, proto, scred, strust, deviation, ccred="cli_d2", timeout=60, mut=None):
     """spawn the library server on one end of a socketpair, play the rogue client on the other; returns (client view, server events)"""
     a, b = socket.socketpair()
     import tempfile
@@ -452,9 +467,12 @@ def run(creddir, exe, proto, scred, strust, deviation, ccred="cli_d2", timeout=6
     chain = open(os.path.join(creddir, ccred, "chain.der"), "rb").read()
     d = int(open(os.path.join(creddir, ccred, "sign.key")).read().strip(), 16)
     try:
-        view = tls13_client(a, deviation, chain, d) if proto == 772 else tlcp_client(a, deviation, chain, d, proto=proto)
+        view = tls13_client(a, deviation, chain, d, mut=mut) if proto == 772 else tlcp_client(a, deviation, chain, d, proto=proto, mut=mut)
     except (socket.timeout, ConnectionError, OSError) as ex:
         view = {"completed": False, "why": "socket: %r" % ex}
+    except Exception as ex:
+        if mut is None: raise
+        view = {"completed": False, "why": "peer logic: %r" % ex}
     try:
         a.close()
     except OSError:
